@@ -84,20 +84,20 @@ def run(ctx):
             pairs.setdefault(k, o)
     pairs = list(pairs.values())
     rng.shuffle(pairs)
-    npairs = 3000 if thorough else 120
+    npairs = 1500 if thorough else 120
     chosen = []
     for o in singles:
         d = o["c"]["ds"]
-        v = 10 if thorough else 2
+        v = 6 if thorough else 2
         if d and d[0]["w"] == "reforge" and d[0]["v"] == "cutstream":
-            v = 60 if thorough else 14      # the field boundaries of the block's records, the last record first
+            v = 40 if thorough else 14      # the field boundaries of the block's records, the last record first
         elif d and d[0]["w"] == "csize" and d[0]["v"] == "big":
             v = 6 if thorough else 2        # (each of these makes the reader allocate gigabytes)
         elif d and d[0]["w"] in ("csize", "namelen", "count", "payload", "appendlong"):
-            v = 16 if thorough else 3
+            v = 8 if thorough else 3
         chosen.append((o, v))
     for o in pairs[:npairs]:
-        chosen.append((o, 2 if thorough else 1))
+        chosen.append((o, 1))
     # pure random byte strings, judged as the taxonomy cases they are instances of
     by = {key(o["c"]): o for o in exported}
     s0 = dict(n=0, ver=3, named=False)
@@ -116,7 +116,7 @@ def run(ctx):
             cid = len(cases) + 1
             cases.append(dict(id=cid, s=o["c"]["s"], ds=o["c"]["ds"], variants=v, raw=0))
             meta[cid] = dict(allowed=o["allowed"], huge=o["huge"])
-        for rawkind, n in ((1, 300 if thorough else 30), (2, 300 if thorough else 30), (3, 300 if thorough else 30)):
+        for rawkind, n in ((1, 150 if thorough else 30), (2, 150 if thorough else 30), (3, 150 if thorough else 30)):
             o = by.get(key(raw_as[rawkind])) or by.get(key(dict(s=raw_as[rawkind]["s"], ds=list(reversed(raw_as[rawkind]["ds"])))))
             if o is None:
                 raise vlib.Inconclusive("taxonomy case for random byte strings of kind %d not found" % rawkind)
